@@ -130,6 +130,7 @@ class RecordHistory(Engine):
             "clear_regions": rng.choice([0, 0.3, 1]),
             "strip": rng.choice([0, 0, 0.3]),
             "lookup": rng.choice([1, 3, 6]),
+            "readd": rng.choice([0, 0.5, 1.5]),
         }
         table = sorted(weights.items())
         origin_bias = rng.choice([0.0, 0.2, 0.5]) if circular else 0.0
@@ -274,6 +275,12 @@ class RecordHistory(Engine):
             elif kind == "lookup":
                 parts = area_parts(1, rng.choice([10, 40, 150]))
                 ops.append({"op": kind, "loc": parts, "overlap": rng.random() < 0.5})
+            elif kind == "readd":
+                # only subregions: a protocluster object keeps its defining genes from its earlier life, which
+                # says nothing about the record it is added to again (the pipeline always adds fresh objects)
+                known = [f"s{i}" for i in range(1, counter["s"] + 1)]
+                if known:
+                    ops.append({"op": kind, "id": rng.choice(known)})
             else:
                 ops.append({"op": kind})
         return {"length": length, "circular": circular, "ops": ops, "finalise": rng.random() < 0.7,
@@ -330,6 +337,7 @@ EXPECTED_PROBES = [
     "origin_area_overlaps_2", "region_covers_whole_record", "clear_create_cycle_2", "region_created",
     "implicit_region_recreation", "lookup_compound", "lookup_overlap_hits_origin_gene", "multi_region",
     "region_with_2_members", "op_rejected", "gene_renamed", "definition_cds", "multi_exon_gene",
+    "area_readded_after_clear",
 ]
 
 
@@ -343,6 +351,8 @@ def _op_str(op: Dict[str, Any]) -> str:
         return f"add_sub {op['id']} {op['loc']}"
     if kind == "lookup":
         return f"lookup {op['loc']} overlap={op['overlap']}"
+    if kind == "readd":
+        return f"readd {op['id']}"
     return kind
 
 
@@ -391,6 +401,7 @@ class _Execution:
         self.step = -1
         self.max_regions = 0
         self.ever_in_record: Dict[int, Any] = {}
+        self.removed: Dict[str, Dict[str, Any]] = {}   # id -> spec of protoclusters / subregions taken out by clear_*
 
     def _new_record(self):
         annotations = {"molecule_type": "DNA", "topology": "circular" if self.circular else "linear"}
@@ -488,19 +499,39 @@ class _Execution:
                 if self.region_cycles >= 2:
                     res.probe("clear_create_cycle_2")
                 return "regions_created"
+            if kind in ("clear_protos", "clear_cands", "clear_subs", "clear_regions", "strip"):
+                self.before_clear = (list(rec.get_protoclusters()) + list(rec.get_candidate_clusters())
+                                     + list(rec.get_subregions()))
+            if kind == "readd":
+                spec = self.removed.pop(op["id"], None)
+                if spec is None:
+                    return "skipped"
+                # the very object that a clear_* call took out of the record is added again
+                if "core" in spec:
+                    rec.add_protocluster(spec["obj"])
+                    self.protos[op["id"]] = spec
+                else:
+                    rec.add_subregion(spec["obj"])
+                    self.subs[op["id"]] = spec
+                res.probe("area_readded_after_clear")
+                return "ok"
             if kind == "clear_protos":
                 rec.clear_protoclusters()
+                self.removed.update(self.protos)
                 self.protos.clear()
             elif kind == "clear_cands":
                 rec.clear_candidate_clusters()
             elif kind == "clear_subs":
                 rec.clear_subregions()
+                self.removed.update(self.subs)
                 self.subs.clear()
             elif kind == "clear_regions":
                 rec.clear_regions()
                 return "ok"
             elif kind == "strip":
                 rec.strip_antismash_annotations()
+                self.removed.update(self.protos)
+                self.removed.update(self.subs)
                 self.protos.clear()
                 self.subs.clear()
                 for gene in self.genes.values():
@@ -745,6 +776,18 @@ class _Execution:
                                  f"{type(parent).__name__} {loc_parts(parent.location)} that is not in the record "
                                  f"after {op['op']}", sig=f"stale-parent:{kind}:{op['op']}")
                     return
+        # areas that the clear_* call of this step took out of the record must not keep a link either
+        if op["op"] in ("clear_protos", "clear_cands", "clear_subs", "clear_regions", "strip"):
+            live = {id(a) for a in list(protos) + list(cands) + list(subs)}
+            for area in getattr(self, "before_clear", []):
+                if id(area) in live or area.parent is None:
+                    continue
+                if id(area.parent) not in self.ever_in_record:
+                    continue
+                self.violate("C06-b", f"{type(area).__name__} {loc_parts(area.location)} was removed by {op['op']} but still "
+                             f"has a parent {type(area.parent).__name__} {loc_parts(area.parent.location)}",
+                             sig=f"removed-keeps-parent:{type(area).__name__}:{op['op']}")
+                return
         # ---- C06-c
         if region_creation:
             self._check_regions(op)
